@@ -30,7 +30,8 @@ ENTS = [
     ("vpub", "var", "public", True, "lib"), ("vprot", "var", "protected", True, "lib"), ("vpriv", "var", "private", True, "lib"),
     ("uvpub", "var", "public", False, "lib"), ("uvpriv", "var", "private", False, "lib"),
     ("tpub", "type", "public", True, "lib"), ("tpriv", "type", "private", True, "lib"), ("utpub", "type", "public", False, "lib"),
-    ("tchild", "type", "public", True, "lib"),  # has a component of the private type: a relation to an unselected entity
+    ("tchild", "type", "public", True, "lib"),
+    ("tchild2", "type", "public", True, "lib2"),  # in another module: extends tpub and inherits its components and bindings  # has a component of the private type: a relation to an unselected entity
     ("cpub", "comp", "public", True, "tpub"), ("cpriv", "comp", "private", True, "tpub"), ("ucpub", "comp", "public", False, "tpub"),
     ("bpub", "bind", "public", True, "tpub"), ("bpriv", "bind", "private", True, "tpub"),
     ("cq", "comp", "public", True, "tpriv"),
@@ -85,6 +86,7 @@ def source(meta):
           "  subroutine bimpl1(self)", "    !! TRCbimpl1x", "    !!", "    !! second paragraph", "    class(tpub) :: self", "  end subroutine bimpl1",
           "  subroutine bimpl2(self)", "    !! TRCbimpl2x", "    !!", "    !! second paragraph", "    class(tpub) :: self", "  end subroutine bimpl2",
           "end module lib",
+          "module lib2", "  !! TRClib2x", "  use lib", "  implicit none", "  type, extends(tpub) :: tchild2"] + doc("tchild2", "    ") + ["    integer :: own2", "  end type tchild2", "end module lib2",
           "submodule (lib) sublib", "  !! TRCsublibx", "contains", "  module procedure smp", "    !! TRCsmpimplx", "    integer :: mplocal"] + doc("mplocal", "    ") + [
           "    call mpinner()", "  contains", "    subroutine mpinner()"] + doc("mpinner", "      ") + ["    end subroutine mpinner", "  end procedure smp", "end submodule sublib",
           "program prog", "  !! TRCprogx program doc", "  use lib", "  implicit none", "  integer :: pvar"] + doc("pvar") + ["  call spub(1)", "contains", "  subroutine pinner()"] + doc("pinner", "    ") + ["  end subroutine pinner", "end program prog",
@@ -131,6 +133,8 @@ def expected_selection(display, proc_internals, hide_undoc, overrides):
             sel[name] = sel.get("tpriv", False) and shown(e, d_lib)
         elif parent == "spub":
             sel[name] = sel.get("spub", False) and bool(pi_spub) and shown(e, d_spub)
+        elif parent == "lib2":
+            sel[name] = shown(e, d_file)
         elif parent == "prog":
             sel[name] = shown(e, d_file)  # a program's contents are filtered with its display; internal procedures of a program are its own contents
         elif parent == "ext":
@@ -143,8 +147,8 @@ def expected_selection(display, proc_internals, hide_undoc, overrides):
 
 OVERRIDE_SITES = [
     ("file-display", [None, ["private"], ["public"], ["none"], ["public", "private", "protected"]]),
-    ("lib-display", [None, ["private"], ["public"], ["none"], ["public", "private"], ["private", "@KEY=Display"], ["none", "@KEY=DISPLAY"]]),
-    ("tpub-display", [None, ["private"], ["public"], ["none"], ["private", "@KEY=Display"]]),
+    ("lib-display", [None, ["private"], ["public"], ["none"], ["public", "private"], ["private", "@KEY=Display"], ["none", "@KEY=DISPLAY"], ["protected"]]),
+    ("tpub-display", [None, ["private"], ["public"], ["none"], ["private", "@KEY=Display"], ["protected"]]),
     ("spub-display", [None, ["private"], ["public"], ["none"], ["none", "@KEY=DISPLAY"]]),
     ("spub-proc_internals", [None, True, False, "@KEY=Proc_Internals"]),
 ]
@@ -201,7 +205,13 @@ def run_config(st: Stats, display, proc_internals, hide_undoc, overrides, search
             _, kind, perm, documented, parent = e
             tr = tracer(name) if documented else None
             where = [rel for rel, t in alltext.items() if tr and tr in t]
+            if parent == "tpub":
+                # components and bindings of tpub are also shown, as inherited ones, with the type that extends it
+                where = [rel for rel in where if rel not in ("type/tchild2.html", "module/lib2.html")]
             in_search = bool(tr and tr in search_text)
+            if parent == "tpub" and in_search:
+                in_search = any(tr in (str(e.get("text", "")) + str(e.get("title", ""))) for e in site.search
+                                if isinstance(e, dict) and str(e.get("url", "")) not in ("type/tchild2.html", "module/lib2.html"))
             st.transitions += 1
             f = dict(feats, entity=name, kind=kind, permission=perm, documented=documented, parent=parent)
             if selected:
@@ -227,10 +237,21 @@ def run_config(st: Stats, display, proc_internals, hide_undoc, overrides, search
                     if targets:
                         bad += 1
                         st.violation("link-to-unselected-entity", stratum, f, inp, targets[:3], "no link to the page of an unselected entity")
+        # what a type inherits is filtered with ITS display, not with the display of the type it comes from
+        if sel.get("tchild2") and "type/tchild2.html" in alltext:
+            d_file = effective([d.lower() for d in display], overrides.get("file-display", []), True)
+            for comp, perm in (("cpub", "public"),):  # (private components stay with the module that declares them)
+                shown_here = comp in alltext["type/tchild2.html"]
+                if shown_here != (perm in d_file):
+                    bad += 1
+                    st.violation("selected-entity-not-documented" if not shown_here else "unselected-entity-leaks", stratum,
+                                 dict(feats, entity=f"tchild2%{comp}", kind="inherited comp", permission=perm, documented=True, parent="tchild2", leak="inherited"), inp,
+                                 f"{comp} on type/tchild2.html: {shown_here}", f"shown iff {perm} is displayed for tchild2")
         # undocumented twins are identified by name in declaration tables
         for name in ("uvpub", "uvpriv", "utpub", "ucpub", "uspub"):
             e = ents[name]
-            present = any(name in t for t in alltext.values())
+            # (a component of tpub is also listed, as inherited, with the type extending it in lib2)
+            present = any(name in t for rel, t in alltext.items() if not (e[4] == "tpub" and rel in ("type/tchild2.html", "module/lib2.html")))
             if sel[name] != present:
                 bad += 1
                 f = dict(feats, entity=name, kind=e[1], permission=e[2], documented=False, parent=e[4])
